@@ -1,1 +1,143 @@
+(* C18/Properties.v — the property theorems only.  Each is closed by [exact] of a lemma from
+   Proofs.v (or by vm_compute for a concrete witness) and followed by Print Assumptions.
+
+   [repaired] = the model with both proposed fixes; [defective] = the code as it is today.
+   Theorems stated for an arbitrary variant [v] hold for both. *)
 From OV Require Import Common.Base C18.Model C18.Proofs.
+Local Open Scope N_scope.
+
+(* --- all-or-nothing -------------------------------------------------------------------- *)
+(* An apply that reports success has every artifact at the new content and mode, the journal
+   at "completed" and current-manifest at the new version — whatever faults were injected. *)
+Theorem C18_no_mixed_success :
+  forall v T Q F w w', apply v T Q F w = (w', ROk) ->
+  (forall a, In a (t_arts T) -> exists mm, new_mode (a_mode a) = Some mm /\
+                                  fs w' (a_path a) = Some (Reg (a_content a) mm)) /\
+  cur w' = t_to T /\ option_map j_phase (jr w') = Some PCompleted.
+Proof. exact no_mixed_success. Qed.
+Print Assumptions C18_no_mixed_success.
+
+(* An apply that reports "failed, auto-rollback succeeded" leaves every artifact path exactly
+   (kind, bytes, mode) as before the apply: for every command failure, swap failure at any
+   index, health outcome. *)
+Theorem C18_failed_apply_restored :
+  forall T Q F w w', apply repaired T Q F w = (w', RErrRolledBack) ->
+  forall a, In a (t_arts T) -> fs w' (a_path a) = fs w (a_path a).
+Proof. exact (fun T Q F w w' => failed_apply_restored repaired T Q F w w' eq_refl). Qed.
+Print Assumptions C18_failed_apply_restored.
+
+(* An apply that returns a plain error (refusal, snapshot / hook / suspend / stop failure)
+   has not touched any artifact nor current-manifest. *)
+Theorem C18_early_error_untouched :
+  forall v T Q F w w', apply v T Q F w = (w', RErr) -> fs w' = fs w /\ cur w' = cur w.
+Proof. exact early_error_untouched. Qed.
+Print Assumptions C18_early_error_untouched.
+
+(* --- always restorable ----------------------------------------------------------------- *)
+(* Whatever happened in an admitted apply once its snapshot completed (g_base = Some (true, ..)):
+   any failure set, the process dying at any labelled point, a failed auto-rollback — after any
+   sequence of further rollback attempts (each with its own failures / crash / obstacles) and
+   obstacle removals, every rollback that reports success leaves every artifact of the tarball
+   identical to what was installed before the apply. *)
+Theorem C18_rollback_restores :
+  forall T Q F w w1 r1 b gi,
+  apply repaired T Q F w = (w1, r1) -> admit T Q w = true ->
+  g_base w1 = Some (true, b, gi) ->
+  forall ops, rb_only ops ->
+  forall w' r m, In (w', (r, m)) (run repaired w1 ops) -> r = RRbOk ->
+  forall a, In a (t_arts T) -> fs w' (a_path a) = fs w (a_path a).
+Proof. exact (fun T Q F w w1 r1 b gi => crash_then_rollback_restores repaired T Q F w w1 r1 b gi eq_refl). Qed.
+Print Assumptions C18_rollback_restores.
+
+(* Over whole histories (applies, rollbacks, operator edits, obstacle removal, ForceRetry) from any
+   installed tree: no operation that reports success — upgrade, auto-rollback or rollback — leaves
+   a mixture; [mon] compares with the all-new tree resp. the tree recorded when the last snapshot
+   completed. *)
+Theorem C18_monitor_never_mixed :
+  forall c f ops w' r m, In (w', (r, m)) (run repaired (init_world c f) ops) -> m <> MonMixed.
+Proof. exact monitor_never_mixed. Qed.
+Print Assumptions C18_monitor_never_mixed.
+
+(* --- admission before mutation --------------------------------------------------------- *)
+(* bad signature, digest mismatch, unsafe / non-regular member or unparsable manifest, malformed
+   or wrong predecessor: nothing at all changes (artifacts, journal, snapshots, current-manifest) *)
+Theorem C18_admission_before_mutation :
+  forall v T Q F w, inadmissible T w -> apply v T Q F w = (w, RErr).
+Proof. exact admission_before_mutation. Qed.
+Print Assumptions C18_admission_before_mutation.
+
+(* --- what the code does today ---------------------------------------------------------- *)
+Definition fs_ex : path -> option file :=
+  fun p => if N.eqb p 0 then Some (Reg 10 2541) (* 04755 *) else if N.eqb p 1 then Some (Reg 11 420) else None.
+Definition arts_ex : list artifact :=
+  [ {| a_path := 0; a_content := 20; a_mode := MOk 493; a_vpp := false |};
+    {| a_path := 1; a_content := 21; a_mode := MEmpty; a_vpp := true |} ]%N.
+Definition tar_ex (to : ver) (prev : prevspec) : tarball :=
+  {| t_to := to; t_prev := prev; t_sig_ok := true; t_members_ok := true; t_digest_ok := true;
+     t_hook_ok := true; t_arts := arts_ex |}.
+Definition no_opts : opts := {| o_expect := None; o_force := false |}.
+Definition no_faults : faults :=
+  {| f_fail := []; f_crash := None; f_ha := true; f_hr := true; f_ob := []; f_rob := [] |}.
+Definition health_fails : faults :=
+  {| f_fail := []; f_crash := None; f_ha := false; f_hr := true; f_ob := []; f_rob := [] |}.
+Definition dies_mid_swap : faults :=    (* swap of artifact #1 fails, process dies before the auto-rollback *)
+  {| f_fail := []; f_crash := Some 51%N; f_ha := true; f_hr := true; f_ob := [(1%N, false)]; f_rob := [] |}.
+
+(* today: a failed apply whose auto-rollback "succeeded" has lost the setuid bit of artifact 0 *)
+Theorem C18_failed_apply_restored_refuted :
+  exists T Q F w w', apply defective T Q F w = (w', RErrRolledBack) /\
+  exists a, In a (t_arts T) /\ fs w' (a_path a) <> fs w (a_path a).
+Proof.
+  exists (tar_ex 2 PrevNone), no_opts, health_fails, (init_world 1 fs_ex).
+  eexists. split; [vm_compute; reflexivity|].
+  exists {| a_path := 0; a_content := 20; a_mode := MOk 493; a_vpp := false |}%N.
+  split; [left; reflexivity|vm_compute; discriminate].
+Qed.
+Print Assumptions C18_failed_apply_restored_refuted.
+
+(* today: upgrade 1 -> 2, roll back (artifacts are those of version 1 again), and a tarball that
+   declares predecessor 2 is admitted and installed, while [g_inst] (the version the artifacts
+   belong to) is 1 *)
+Theorem C18_wrong_predecessor_refuted :
+  exists ops w' r m, last (run defective (init_world 1 fs_ex) ops) (init_world 1 fs_ex, (RErr, MonNone)) = (w', (r, m)) /\
+  r = ROk /\ g_inst (fst (nth 1 (run defective (init_world 1 fs_ex) ops) (init_world 1 fs_ex, (RErr, MonNone)))) = 1%N /\
+  cur (fst (nth 1 (run defective (init_world 1 fs_ex) ops) (init_world 1 fs_ex, (RErr, MonNone)))) = 2%N.
+Proof.
+  exists [OpApply (tar_ex 2 PrevNone) no_opts no_faults; OpRollback no_faults;
+          OpApply (tar_ex 3 (Prev 2 true)) no_opts no_faults].
+  eexists. exists ROk. eexists. split; [vm_compute; reflexivity|]. vm_compute. auto.
+Qed.
+Print Assumptions C18_wrong_predecessor_refuted.
+
+(* --- non-vacuity ----------------------------------------------------------------------- *)
+Example C18_nonvacuous_success :
+  exists w', apply repaired (tar_ex 2 (Prev 1 true)) no_opts no_faults (init_world 1 fs_ex) = (w', ROk).
+Proof. eexists. vm_compute. reflexivity. Qed.
+Print Assumptions C18_nonvacuous_success.
+
+Example C18_nonvacuous_auto_rollback :
+  exists w', apply repaired (tar_ex 2 PrevNone) no_opts health_fails (init_world 1 fs_ex) = (w', RErrRolledBack) /\
+  ofile_eqb (fs w' 0%N) (Some (Reg 10 2541)) = true.
+Proof. eexists. vm_compute. split; reflexivity. Qed.
+Print Assumptions C18_nonvacuous_auto_rollback.
+
+(* process dies with artifact 0 swapped and artifact 1 not; a later rollback reports success *)
+Example C18_nonvacuous_crash_rollback :
+  exists w1 b gi w' m,
+    apply repaired (tar_ex 2 PrevNone) no_opts dies_mid_swap (init_world 1 fs_ex) = (w1, RCrash) /\
+    admit (tar_ex 2 PrevNone) no_opts (init_world 1 fs_ex) = true /\
+    g_base w1 = Some (true, b, gi) /\
+    ofile_eqb (fs w1 0%N) (Some (Reg 20 493)) = true /\ ofile_eqb (fs w1 1%N) (Some (Reg 11 420)) = true /\
+    rb_only [OpRollback no_faults] /\
+    In (w', (RRbOk, m)) (run repaired w1 [OpRollback no_faults]).
+Proof.
+  do 5 eexists. split; [vm_compute; reflexivity|]. split; [vm_compute; reflexivity|].
+  split; [vm_compute; reflexivity|]. split; [vm_compute; reflexivity|]. split; [vm_compute; reflexivity|].
+  split; [repeat constructor|]. vm_compute. left. reflexivity.
+Qed.
+Print Assumptions C18_nonvacuous_crash_rollback.
+
+Example C18_nonvacuous_inadmissible :
+  inadmissible (tar_ex 3 (Prev 2 true)) (init_world 1 fs_ex).
+Proof. right. right. right. exists 2%N, true. split; [reflexivity|right; discriminate]. Qed.
+Print Assumptions C18_nonvacuous_inadmissible.
